@@ -18,7 +18,7 @@ META = dict(
 
 def run(ctx):
     ctx.lean_proofs("Props.C23")
-    _nodes.run_nodes(ctx, "C23", "c23")
+    _nodes.run_nodes(ctx, "C23", "c23", quick=180)
     try:
         _load("_c23apps").run_apps(ctx)
     except FileNotFoundError:
